@@ -83,6 +83,12 @@ CLAIMED["C02"] = {
     "note": "Ranges of f-string pieces and implicit concatenations are covered with C07; nodes that only carry ranges under all-nodes-with-ranges are checked structurally (no reference positions exist for them).",
     "technique": "TLA+ generative grammar with range marks explored by TLC; TLC-generated programs under several layouts replayed into the parser (ranges vs marks); CPython cross-validation of the marks",
 }
+CLAIMED["C08"] = {
+    "text": "LayoutMC.tla renders logical programs (lines with depths and tokens, <= 2/3 lines) under every combination of layout choices (LF/CR/CRLF, indent unit, trailing whitespace, trailing comments, BOM, missing final line break, and a blank / whitespace-only / odd-indentation comment line, form feed, backslash join or in-bracket line break at any line) and TLC checks on the lexer machine that no layout causes an error and that the delivered token kinds are exactly the logical program's. Every PyGen.tla program is realised canonically, under seven layout variants (incl. ';'-joined simple statements) and with one redundant pair of parentheses around every expression (a second TLC run with ExtraParens); every variant must be accepted and give the canonical tree with ranges erased.",
+    "design_ref": "DESIGN.md section 6 C08",
+    "note": "The 'simple' flag of annotated assignments is excepted by never parenthesising such targets; tab-after-space indentation is the documented stricter rule and is not a variant; quick tier rotates two variants per program.",
+    "technique": "TLA+ layout renderer composed with the lexer machine model-checked by TLC (token-stream invariance); TLC-generated programs replayed under layout and parenthesis variants (tree invariance)",
+}
 NOT_YET = {}
 
 def main():
